@@ -586,6 +586,50 @@ example : ∃ d, decodePng (fun _ => .ok (filterRows 1 [0] [[0xC6, 0x40]] [0, 0]
       rfl rfl (by decide) (by decide) (by decide) (by simp) (by simp) (by decide) rfl rfl
       (by decide) rfl (by decide) (by decide), rfl, rfl⟩
 
+/-! ## zlib with stored blocks: no inflate hypothesis -/
+
+/-- `decompress_idat` on a stored-block zlib stream (the model's `storedInflate`, which follows
+flate2's `read::ZlibDecoder`) returns what the reference encoder (RFC 1950 header, stored blocks of
+at most `blk` bytes, Adler-32) was given — any block size, any data. -/
+theorem C24_storedInflate_zlibStored (blk : Nat) (data : List Nat) :
+    storedInflate (Spec.C24Png.zlibStored blk data) = .ok data :=
+  storedInflate_zlibStored blk data
+
+example : storedInflate (Spec.C24Png.zlibStored 2 [1, 2, 3]) = .ok [1, 2, 3] :=
+  C24_storedInflate_zlibStored 2 [1, 2, 3]
+
+/-- `C24_png_file` for files whose zlib stream is the reference stored-block encoding of the
+filtered scanlines, cut into IDAT chunks anywhere (also inside block headers and the Adler-32):
+nothing about zlib is assumed. -/
+theorem C24_png_file_stored (blk w h depth ctb : Nat) (ct : ColorType)
+    (plte trns : Option (List Nat))
+    (zs : List (List Nat)) (rows : List (List Nat)) (fts : List Nat)
+    (img : List Nat) (alpha : Option (List Nat))
+    (hct : ColorType.fromByte ctb = some ct) (hda : depthAllowed ct depth = true)
+    (hw : 0 < w ∧ w < 4294967296) (hh : 0 < h ∧ h < 4294967296)
+    (hsz : h * bytesPerRow w depth ct < usizeMax)
+    (hpl : ∀ p, plte = some p → p.length % 3 = 0 ∧ p.length < 4294967296)
+    (htr : ∀ t, trns = some t → t.length < 4294967296)
+    (hz : zs ≠ [] ∧ ∀ z ∈ zs, z.length < 4294967296)
+    (hzl : zs.flatten = Spec.C24Png.zlibStored blk (filterRows (bytesPerPixel depth ct) fts rows
+              (List.replicate (bytesPerRow w depth ct - 1) 0)))
+    (hi : rows.length = h)
+    (hr : ∀ r ∈ rows, r.length = bytesPerRow w depth ct - 1 ∧ ∀ x ∈ r, x < 256)
+    (hf : fts.length = rows.length) (hfv : ∀ f ∈ fts, f ≤ 4)
+    (hplanes : planesOf (headerState w h depth ct plte trns) rows.flatten
+                 (bytesPerRow w depth ct - 1) = .ok (img, alpha)) :
+    decodePng storedInflate
+        (signature ++ (Spec.C24Png.chunk "IHDR"
+            (Spec.C24Png.be32 w ++ Spec.C24Png.be32 h ++ [depth, ctb, 0, 0, 0]) ++
+          (optChunk "PLTE" plte ++ (optChunk "tRNS" trns ++
+            ((zs.map (Spec.C24Png.chunk "IDAT")).flatten ++ Spec.C24Png.chunk "IEND" []))))) =
+      .ok { width := w, height := h, bitDepth := depth, colorType := ct,
+            imageData := img, alphaData := alpha,
+            palette := (headerState w h depth ct plte trns).palette,
+            trns := (headerState w h depth ct plte trns).trns } :=
+  C24_png_file storedInflate w h depth ctb ct plte trns zs rows fts img alpha hct hda hw hh hsz hpl
+    htr hz (by rw [hzl]; exact C24_storedInflate_zlibStored _ _) hi hr hf hfv hplanes
+
 /-! ## what the image object carries into the document -/
 
 /-- Whatever `from_png_data` accepts is embedded with the decoded bytes as image data under the
